@@ -9,4 +9,7 @@ def load(chk, config):
     F = facts.load(config)
     if config not in chk.configs:
         chk.configs.append(config)
+    if getattr(F, 'rename_log', None):
+        chk.extra['renamed_items'] = list(F.rename_log)
+        chk.explain('Items renamed since the reference tree were mapped back to their reference names before the rules ran (see renamed_items); reports use the reference names.')
     return F
